@@ -107,12 +107,11 @@ def model_dump(t):
         out["union"] = [it.number_of_variants, it.tag_field_type.bit_length]
     attrs = []
     for a in t.attributes:
-        if isinstance(a, pydsdl.PaddingField):
-            attrs.append(["padding", a.name, type_dump(a.data_type), a.doc])
-        elif isinstance(a, pydsdl.Constant):
-            attrs.append(["const", a.name, type_dump(a.data_type), a.doc] + _const_value(a.value))
-        else:
-            attrs.append(["field", a.name, type_dump(a.data_type), a.doc])
+        kind = "padding" if isinstance(a, pydsdl.PaddingField) else "const" if isinstance(a, pydsdl.Constant) else "field"
+        rec = {"kind": kind, "name": a.name, "type": type_dump(a.data_type), "doc": a.doc}
+        if kind == "const":
+            rec["value"] = _const_value(a.value)
+        attrs.append(rec)
     out["attributes"] = attrs
     out["fields"] = [f.name for f in t.fields]
     out["fields_except_padding"] = [f.name for f in t.fields_except_padding]
@@ -169,6 +168,12 @@ def build(node, v):
     return cls(**{attr: build(sub, v[dname]) for dname, attr, sub in node["fields"]})
 
 
+def npdt(name):
+    import numpy as np
+
+    return np.bool_ if name == "bool" else getattr(np, name)
+
+
 def mat(c):
     """candidate -> python object"""
     import numpy as np
@@ -179,7 +184,7 @@ def mat(c):
     if k == "none":
         return None
     if k == "np":
-        return getattr(np, c["dt"])(c["v"])
+        return npdt(c["dt"])(c["v"])
     if k == "bytes":
         return bytes.fromhex(c["h"])
     if k == "bytearray":
@@ -191,7 +196,7 @@ def mat(c):
     if k == "tuple":
         return tuple(mat(e) for e in c["v"])
     if k == "nparr":
-        a = np.array(c["v"], dtype=getattr(np, c["dt"]))
+        a = np.array(c["v"], dtype=npdt(c["dt"]))
         if c.get("shape"):
             a = a.reshape(c["shape"])
         return a
@@ -356,7 +361,7 @@ def op_model(op):
         ident = tuple(top["id"])
         node = None
     else:
-        node = PLAIN_TYPES[op["i"]]
+        node = PLAIN_TYPES[op["ti"]]
         cls = cls_of(node)
         ident = tuple(node["id"])
         top = None
